@@ -145,6 +145,7 @@ type Run struct {
 	Samples []any
 	MetaInjs []*InjErr
 	Budget  bool // step or time budget hit (inconclusive run, never a violation)
+	Fatal   bool // a goroutine of the system under test panicked
 	Dirty   bool
 
 	// Scheduling policy (drawn from the schedule tape).
@@ -164,6 +165,15 @@ type Run struct {
 	OnPick  func()                        // before each scheduling choice (controller-side events)
 	OnClock func(before, after time.Time) // called around clock advances
 	Keep    bool                          // keep trace
+
+	// Fault enumeration (C06/C13/C15): one fault at the EnumPos-th seam call made while
+	// EnumActive is set by the scenario.
+	EnumOn      bool
+	EnumActive  bool
+	EnumPos     int
+	EnumVariant int
+	EnumCount   int
+	EnumKinds   []string
 
 	// Targeted stall: the StallAtNth-th release of a gate of kind StallAtKind stalls forever.
 	StallAtKind string
@@ -387,6 +397,31 @@ func (r *Run) decideFault(p *simrt.Parked) simrt.Decision {
 	if p.Note == 1 { // was stalled once already: let it through unharmed
 		return simrt.Decision{}
 	}
+	if r.EnumOn {
+		// Fault enumeration: exactly one fault, at the EnumPos-th seam call of the enumerated
+		// phase (the reference execution counts the calls with EnumPos out of range).
+		if !r.EnumActive {
+			return simrt.Decision{}
+		}
+		idx := r.EnumCount
+		r.EnumCount++
+		r.EnumKinds = append(r.EnumKinds, p.Kind)
+		if idx != r.EnumPos {
+			return simrt.Decision{}
+		}
+		f := FErr
+		switch r.EnumVariant {
+		case 1:
+			if p.Kind == "ds.write" || p.Kind == "ds.read" || p.Kind == "os.write" {
+				f = FShort
+			} else if p.Kind == "ds.wclose" || p.Kind == "os.rename" || p.Kind == "os.fsyncdir" {
+				f = FLateErr
+			}
+		}
+		name := map[int]string{FErr: "err", FShort: "short", FLateErr: "late-err"}[f]
+		r.countFault(name + ":" + p.Kind)
+		return simrt.Decision{Fault: f, Arg: int64(3 + idx)}
+	}
 	if r.StallAtKind != "" && p.Kind == r.StallAtKind {
 		if r.kindCount == nil {
 			r.kindCount = map[string]int{}
@@ -497,6 +532,10 @@ func (r *Run) Loop(done func() bool, idleLimit time.Duration) {
 			r.OnStep() // still stamped with the step whose effects it observes
 		}
 		r.Step++
+		if r.Fatal {
+			r.Budget = true // no further verdicts from this run; the panic itself is the violation
+			return
+		}
 		if r.Step > r.MaxSteps {
 			r.Budget = true
 			r.Logf("step budget exhausted")
@@ -567,6 +606,10 @@ func (r *Run) FairDrain(done func() bool, maxSteps int, maxSim time.Duration) bo
 			r.OnStep()
 		}
 		r.Step++
+		if r.Fatal {
+			r.Budget = true
+			return false
+		}
 		r.UnstallAll()
 		ps := simrt.ParkedList()
 		if len(ps) == 0 {
